@@ -94,12 +94,10 @@ def run(ctx, chk):
             chk.ob('C08.C', 'drift:passed-through', m.updater_field(f[3]) == drift_f and drift_f not in i['stores'], where,
                    'record drift = %s; drift field assigned on this path: %s' % (fmt(f[3])[-40:], drift_f in i['stores']))
             # ---- H published status
-            form = published_form(f[5])
-            # the published value() is taken from the state the FSM step of this path produced
-            from_step = any(s_ is not None and any(x == s_ for x in psi.walk(f[5])) for s_ in i['steps']) or \
-                (any(s_ is None for s_ in i['steps']) and form[0] == 'fsm')
-            okh = (form[0] == 'fsm' and from_step) or form == ('const', 'Unknown')
-            chk.ob('C08.H', 'published-status:%s' % form[0], okh, where, 'published status = %s' % str(form)[:160])
+            # the published status is the value of the state this path's FSM step produced, or a gate to Unknown
+            kind, st_, from_step = m.published(chk, i, ceb)
+            okh = (kind == 'fsm' and from_step) or (kind, st_) == ('const', 'Unknown')
+            chk.ob('C08.H', 'published-status:%s' % kind, okh, where, 'published status = %s' % str((kind, st_))[:160])
     for name in list(MISSING) + ['ClockErrorBoundData', 'ThreadAbort']:
         chk.ob('C08.F', 'dispatch:%s:handled' % name, name in seen, where0,
                'message %s %s' % (name, 'has a dispatch row' if name in seen else 'HAS NO DISPATCH ROW'), nontrivial=False)
@@ -109,8 +107,10 @@ def run(ctx, chk):
 
     # ---- D FSM tables
     trans, values, passthrough, delegates = m.fsm_tables(chk)
-    chk.ob('C08.D', 'fsm:value-is-field', passthrough, where0, 'value() returns the state\'s clock_status field')
-    chk.ob('C08.D', 'fsm:apply-delegates-to-transition', delegates, where0, 'apply_chrony(update) = transition(update)')
+    chk.ob('C08.D', 'fsm:value-is-field', passthrough, where0, 'value() returns the state\'s clock_status field' if not m.enum_mode else
+           'enum-encoded state machine: the value table is read off the function mapping a state to its ClockStatus')
+    chk.ob('C08.D', 'fsm:apply-delegates-to-transition', delegates, where0, 'apply_chrony(update) = transition(update)' if not m.enum_mode else
+           'enum-encoded state machine: the transition table is read off the resolved step function itself')
     chk.ob('C08.D', 'fsm:three-states', len(trans) == 3 and sorted(values.get(s) for s in trans) == sorted(STATUS), where0,
            'states: %s' % {s.split('::')[-1]: values.get(s) for s in trans})
     n_rows = 0
